@@ -126,8 +126,88 @@ def scenario(e, cfg, built=None):
             ctx.__exit__(None, None, None)
 
 
+def real_pool_stalling_consumer(T, steps=12, total=400, slow_source=False):
+    """Concrete anchor on the REAL LazyPool with real threads: the consumer takes one result at a time and waits until the
+    pool is quiescent (nothing more is pulled or mapped without the consumer) before taking the next.  At every such point
+    inputs pulled - results taken must stay within 2T+3 (the pocomp bound), however many steps were made."""
+    import importlib
+    import threading
+    import time
+    import sedpack.io.itertools.lazy_pool as lp
+    lp = importlib.reload(lp)
+    pulled = [0]
+    mapped = [0]
+
+    def src():
+        for i in range(total):
+            pulled[0] += 1
+            if slow_source:
+                time.sleep(0.0003)  # an input iterable that releases the GIL (I/O): the workers keep up with the producer
+            yield i
+
+    def f(x):
+        mapped[0] += 1
+        return x
+
+    def quiescent():
+        last = None
+        stable = 0
+        for _ in range(400):
+            cur = (pulled[0], mapped[0])
+            stable = stable + 1 if cur == last else 0
+            last = cur
+            if stable >= 8:
+                return
+            time.sleep(0.01)
+
+    out = dict(worst=0, taken=0, hang=False)
+
+    def consume():
+        with lp.LazyPool(T) as pool:
+            it = iter(pool.imap_unordered(f, src()))
+            for k in range(steps):
+                next(it)
+                out["taken"] = k + 1
+                quiescent()
+                out["worst"] = max(out["worst"], pulled[0] - (k + 1))
+        out["done"] = True
+    th = threading.Thread(target=consume, daemon=True)
+    th.start()
+    th.join(60)
+    out["hang"] = th.is_alive()
+    out["pulled"] = pulled[0]
+    return out
+
+
+def _real_pool_cell(cell):
+    from ..symx import Stats
+    common.import_sedpack()
+    st = Stats()
+    for T in cell["Ts"]:
+        st.paths += 1
+        st.proves += 1
+        r = real_pool_stalling_consumer(T)
+        r2 = real_pool_stalling_consumer(T, slow_source=True)
+        if r2["hang"] or r2["worst"] > r["worst"]:
+            r = r2
+        bound = 2 * T + 3
+        if r["hang"] or r["worst"] > bound:
+            what = (f"did not deliver {cell.get('steps', 12)} results within 60 s (pulled {r['pulled']} inputs)" if r["hang"] else
+                    f"had pulled {r['worst']} inputs beyond the results taken (bound 2T+3 = {bound}) after {r['taken']} results")
+            st.cex.append(dict(msg=f"real LazyPool({T}) with a consumer that waits for quiescence between results {what}: read-ahead "
+                                   f"is not bounded by the thread count", model={}, info=dict(kind="lazy-pool-read-ahead-unbounded", T=T)))
+        else:
+            st.proved += 1
+            st.concrete_proves += 1
+            if len(st.samples) < 1:
+                st.samples.append(dict(real_lazy_pool=dict(T=T, worst_read_ahead=r["worst"], bound=bound)))
+    return st
+
+
 def _cell(cell):
     common.import_sedpack()
+    if cell.get("real_pool"):
+        return _real_pool_cell(cell)
     with common.scratch_dir("vt14_") as tmp:
         built = iterscen.build(tmp, cell["layout"])
         return explore(lambda e: scenario(e, cell, built))
@@ -147,6 +227,7 @@ def cells(tier):
                     if repeat and shuffled and layout in ("four-shards", "nested") and iface != "rust":
                         continue  # measured: > 900 s per cell (every pull forks on two random indices)
                     out.append(dict(iface=iface, layout=layout, repeat=repeat, shuffled=shuffled))
+    out.append(dict(real_pool=1, Ts=[1, 2, 3] if tier == "quick" else [1, 2, 3, 5, 8]))
     return out
 
 
@@ -161,6 +242,9 @@ def run(tier, seed):
         if sig in seen:
             continue
         seen.add(sig)
+        if kind == "lazy-pool-read-ahead-unbounded":
+            viols.append(Violation(sig, c["msg"], dict(real_pool_T=(c.get("info") or {}).get("T", 2))))
+            continue
         head = c["msg"].split(":")[0].split(" ")[0]
         iface, _, layout = head.partition("/")
         cfg = dict(iface=iface, layout=layout or "two-shards", repeat=int("repeat=True" in c["msg"]),
@@ -174,7 +258,7 @@ def run(tier, seed):
                     "is proved to be bounded by a formula over the buffer size and parallelism only, and taking k elements from the "
                     "infinite stream must terminate.",
         functions=FUNCS,
-        bounds=dict(layouts=sorted({c["layout"] for c in cs}), take="1..2N+1 (repeat) / 1..N", b="1..N+1", T="1..S+1", cells=len(cs)),
+        bounds=dict(layouts=sorted({c["layout"] for c in cs if "layout" in c}), take="1..2N+1 (repeat) / 1..N", b="1..N+1", T="1..S+1", cells=len(cs)),
         stats=st.as_dict(), samples=st.samples,
         assumptions=["LazyPool read-ahead <= 2T+3 is the C13 pocomp query (the stub here uses window 2)",
                      "native reader read-ahead <= T is C15", "ThreadPoolExecutor.map evaluates only the batch it is given"],
@@ -188,6 +272,13 @@ def run(tier, seed):
 
 def replay(case):
     common.import_sedpack()
+    if "real_pool_T" in case:
+        T = case["real_pool_T"]
+        for slow in (False, True):
+            r = real_pool_stalling_consumer(T, slow_source=slow)
+            if r["hang"] or r["worst"] > 2 * T + 3:
+                return True, f"slow_source={slow}: {r}"
+        return False, str(r)
     try:
         scenario(ConcreteEngine(case["model"]), case["cfg"])
     except CexFound as c:
